@@ -163,7 +163,8 @@ inline std::string g_host(Tape &t, int *kind = nullptr) {
   return s;
 }
 inline std::string g_userinfo(Tape &t) {
-  static const std::vector<std::string> pool = {"u", "", "user:pass", "u%41", "%7euser", ":", "a:b:c", "U;x=1"};
+  static const std::vector<std::string> pool = {"u", "", "user:pass", "u%41", "%7euser", ":", "a:b:c", "U;x=1",
+                                                "1.2.3.4", "1.2.3.4:80", "1.2.3.4:8%30", "10.0.0.1:", "h:80", "example.com:8080%41", "v1.a:1", "%31.2.3.4:5%35"};  // user info that reads like host[:port] until the '@' arrives
   if (t.chance(3, 4)) return t.pick(pool);
   return g_run(t, 6, ":", true);
 }
@@ -359,7 +360,11 @@ inline u32s g_noise(Tape &t, bool wideExtras, int *arm = nullptr) {
     int edits = t.range(1, 3);
     for (int e = 0; e < edits; e++) {
       uint32_t pos = t.below((uint32_t)s.size() + 1);
-      switch (t.below(5)) {
+      switch (t.below(wideExtras ? 7 : 5)) {
+        case 5: case 6:  // wide only: a character of the text is lifted beyond 255 in a way that keeps its low byte (or low 16 bits): the text
+                         // stays well formed for code that narrows a character before classifying it, and is ill formed in truth
+          if (!s.empty()) { static const char32_t add[] = {0x100, 0x10000, 0x400, 0x2100, 0x7fffff00}; char32_t &c = s[pos % s.size()]; if (c < 0x100) c += add[t.below(5)]; }
+          break;
         case 0: s.insert(s.begin() + pos, noiseChar()); break;
         case 1: if (!s.empty()) s.erase(s.begin() + (pos % s.size())); break;
         case 2: if (!s.empty()) s[pos % s.size()] = noiseChar(); break;
